@@ -107,6 +107,10 @@ pub trait BT: Value<Transformed: PartialEq> + Clone + Send + Sync + 'static {
             variants: vec![],
         }
     }
+    /// size and name of the type `RotoFunc::invoke` / the trampolines pass for this type
+    fn asparam() -> (usize, &'static str) {
+        (std::mem::size_of::<<Self as Value>::AsParam>(), std::any::type_name::<<Self as Value>::AsParam>())
+    }
     /// the bytes of the real transformed value at these offsets (the caller only asks for
     /// discriminant bytes, which are always initialised)
     fn peek(&self, offs: &[usize]) -> Vec<u8> {
